@@ -1,5 +1,6 @@
 import HH.Hex
 import HH.Machine
+import HH.IntrinEval
 /-!
 # Driver — the model behind the line protocol
 
@@ -118,7 +119,9 @@ def queryLine (env : Env) (line : String) : Option String :=
 
 def stepLine (env : Env) (w : World) (line : String) : World × String :=
   if line.trimAscii.toString == "" then (w, "") else
-  match (specLine line).orElse (fun _ => queryLine env line) with
+  match ((specLine line).orElse (fun _ => queryLine env line)).orElse
+      (fun _ => if env.cfg.arch == .x86_64 && env.cpu.avx2 then intrinLine (line.trimAscii.toString.splitOn " ")
+                else (if (line.trimAscii.toString.splitOn " ").headD "" == "intrin" then some "none" else none)) with
   | some s => (w, s)
   | none =>
     match parseOp env line with
